@@ -255,7 +255,9 @@ def gen_spec(rng, audit_types=("CARD_COMPARISON", "ONEAUDIT", "POLLING"), n_cont
             "audit_max_cards": amc, "use_style": use_style, "max_cards": max_cards, "contests": contests, "cards": cards, "phantom_pool": ph_pool,
             "mvrs": mvrs, "sample_nums": sn, "direct_supermajority": rng.random() < 0.5,
             "sn_mode": rng.choice(("list_order", "reverse", "shuffled", "contest_first")), "sn_step": rng.choice((1, 1, 17, 0.5)), **({"sn_base": 2 ** 255 + 12345, "sn_step": 2 ** 128} if rng.random() < 0.2 else
-               rng.choice(({"sn_base": -7}, {"sn_base": -1000}, {"sn_base": -2 ** 255, "sn_step": 2 ** 250})) if rng.random() < 0.15 else {})}   # (signed or user-supplied numbers: some or all below 0)
+               rng.choice(({"sn_base": -7}, {"sn_base": -1000}, {"sn_base": -2 ** 255, "sn_step": 2 ** 250})) if rng.random() < 0.15 else
+               rng.choice(({"sn_base": 2 ** 63 - 1000, "sn_step": 300}, {"sn_base": 2 ** 64 - 50, "sn_step": 7},
+                           {"sn_base": 2 ** 53 - 3, "sn_step": 1})) if rng.random() < 0.15 else {})}   # (numbers straddling a machine-word boundary, closer together than a double resolves)   # (signed or user-supplied numbers: some or all below 0)
 
 
 def force_uniform_pool(rng, es):
